@@ -61,6 +61,7 @@ impl Report {
     /// A failure of property `prop`'s oracle. It is a verdict only if `prop` is this run's property,
     /// otherwise it is counted as a guard failure (reported in the evidence, decided by prop's own check).
     pub fn fail(&self, prop: &str, signature: &str, summary: String, replay: J) {
+        let summary = if summary.chars().count() > 900 { format!("{}… ({} characters in all; the full case is in the replay file)", summary.chars().take(900).collect::<String>(), summary.chars().count()) } else { summary };
         if prop != self.property {
             *self.guard_failures.lock().unwrap().entry(format!("{}:{}", prop, signature)).or_insert(0) += 1;
             return;
